@@ -302,6 +302,107 @@ func wlMeta(g *hx.Gen, k int) workload {
 				return res + ";" + runOp(s, "UVS", it.v.ToGo())
 			}})
 		}
+		// the other public accessors of the package-level meta-scopes, used next to the loaders (every
+		// third call): whichever of them is the first use in this process must not write what the others read
+		for i, it := range items {
+			if i%3 != 1 {
+				continue
+			}
+			it := it
+			switch (i / 3) % 3 {
+			case 0:
+				ts[i] = thunk{"describe-step-output", func() string {
+					so := schema.NewStepOutputSchema(it.t.Build().(*schema.ScopeSchema), nil, false)
+					d, err := schema.DescribeStepOutput().Serialize(so)
+					if err != nil {
+						return "stepoutput:err"
+					}
+					back, err := schema.DescribeStepOutput().Unserialize(d)
+					return "stepoutput:ok:" + canonOut(d) + ":" + class(err) + fmt.Sprint(back != nil)
+				}}
+			case 1:
+				ts[i] = thunk{"describe-scope-objects", func() string {
+					n := len(schema.DescribeScope().Objects()) + len(schema.DescribeStepOutput().Objects()) + len(schema.DescribeSchema().Objects())
+					err := schema.DescribeStepOutput().ValidateReferences()
+					return fmt.Sprintf("metaobjects:%d:%s", n, class(err))
+				}}
+			default:
+				ts[i] = thunk{"describe-schema", func() string {
+					step := schema.NewStepSchema("s", it.t.Build().(*schema.ScopeSchema),
+						map[string]*schema.StepOutputSchema{"o": schema.NewStepOutputSchema(it.t.Build().(*schema.ScopeSchema), nil, false)}, nil, nil, nil)
+					d, err := schema.NewSchema(map[string]*schema.StepSchema{"s": step}).SelfSerialize()
+					if err != nil {
+						return "schema:err"
+					}
+					_, err = schema.UnserializeSchema(d)
+					return "schema:ok:" + canonOut(d) + ":" + class(err)
+				}}
+			}
+		}
+		return ts, nil
+	}}
+}
+
+// wlUnitTwins: two units definitions of the same base unit and the same scale whose multiplier units
+// are NAMED differently (kB/MB against KiB/MiB), and the package-level UnitBytes next to a
+// same-scale definition with other names, first used concurrently. Each definition parses exactly
+// its own names. The reference is not a second run (a process-wide table filled by the first
+// parse would falsify both runs alike) but the expected answer computed from the definition.
+func wlUnitTwins(g *hx.Gen, k int) workload {
+	scale := int64(1000 + g.R.Intn(3))
+	type def struct {
+		names [2]string
+		build func() *schema.UnitsDefinition
+	}
+	mk := func(k1, m1 string) func() *schema.UnitsDefinition {
+		return func() *schema.UnitsDefinition {
+			return schema.NewUnits(schema.NewUnit("B", "B", "byte", "bytes"), map[int64]*schema.UnitDefinition{
+				scale:         schema.NewUnit(k1, k1, k1+"byte", k1+"bytes"),
+				scale * scale: schema.NewUnit(m1, m1, m1+"byte", m1+"bytes"),
+			})
+		}
+	}
+	defs := []def{{[2]string{"kB", "MB"}, mk("kB", "MB")}, {[2]string{"KiB", "MiB"}, mk("KiB", "MiB")}, {[2]string{"kb", "mb"}, mk("kb", "mb")}}
+	type call struct {
+		d, names int
+		a, b     int64
+	}
+	cs := make([]call, k)
+	for i := range cs {
+		cs[i] = call{g.R.Intn(len(defs)), g.R.Intn(len(defs)), int64(1 + g.R.Intn(9)), int64(g.R.Intn(9))}
+		if g.R.Intn(2) == 0 {
+			cs[i].names = cs[i].d
+		}
+	}
+	builds := 0
+	return workload{kind: "unittwins", build: func() ([]thunk, error) {
+		builds++
+		reference := builds%2 == 0
+		built := make([]*schema.UnitsDefinition, len(defs))
+		for i, d := range defs {
+			built[i] = d.build()
+		}
+		var ts []thunk
+		for _, c := range cs {
+			c := c
+			text := fmt.Sprintf("%d%s %dB", c.a, defs[c.names].names[0], c.b)
+			if c.a%2 == 0 {
+				text = fmt.Sprintf("%d%s%d%s", c.a, defs[c.names].names[1], c.b, defs[c.names].names[0])
+			}
+			ts = append(ts, thunk{"twin.ParseInt", func() string {
+				if reference {
+					if c.names != c.d {
+						return "ParseInt:err:0"
+					}
+					if c.a%2 == 0 {
+						return fmt.Sprintf("ParseInt:ok:%d", c.a*scale*scale+c.b*scale)
+					}
+					return fmt.Sprintf("ParseInt:ok:%d", c.a*scale+c.b)
+				}
+				n, err := built[c.d].ParseInt(text)
+				return fmt.Sprintf("ParseInt:%s:%d", class(err), n)
+			}})
+		}
 		return ts, nil
 	}}
 }
@@ -723,7 +824,7 @@ func runTrial(seed int64, trial int, maxG int, only string, sequential bool) tri
 	G := 2 + g.R.Intn(maxG-1)
 	K := G * (1 + g.R.Intn(4))
 	// which workload comes first differs between processes, so every kind of first use gets raced
-	makers := []func(*hx.Gen, int) workload{wlGenerated, wlRebuilt, wlLibrary, wlUnits, wlMeta, wlSchema, wlSteps, wlLibrary, wlRebuilt, wlCompat}
+	makers := []func(*hx.Gen, int) workload{wlGenerated, wlRebuilt, wlLibrary, wlUnits, wlMeta, wlSchema, wlSteps, wlLibrary, wlRebuilt, wlCompat, wlUnitTwins}
 	var wl workload
 	if only != "" {
 		for {
